@@ -57,13 +57,13 @@ func Props(c *Ctx) map[string]*Prop {
 
 	add(&Prop{ID: "C01",
 		Explanation: "Decides the crash and hang side conditions of totality for every path of the current source. Crash: every index, slice, type-assertion and division site reachable from ParseCommand(s) and from the lexer goroutines is proved safe by a forward difference-constraint analysis over go/cfg, by a named invariant whose producer rule runs in this same check (GR3 grammar shapes, PU8 printer stack, PF2 quote shape, LAST1), or by a listed reasoned exception (PF1); bail-out panics are typed and not re-panicked for either panicnil setting (PF4); sealed type switches are exhaustive (PF3). Hang: goroutine roots always close their channels (CC1); sends can always be abandoned and the here-document hand-off cannot deadlock (CC4, CC6, GR4); every scanner cycle passes a successful read, a pushed alias or a popped here-document (RC2); an alias is pushed only after a membership test (RC3); the token channel is unbuffered, which the hand-off argument needs (CC9); a nested lexer reads the very stream of its creator, alias text included (NL1). It does not decide wall-clock bounds or termination of the lexer's state machine as a whole.",
-		Assumptions: []string{"the goyacc driver template is trusted as generator output", "analysed build configuration: linux/amd64"},
+		Assumptions: []string{"the goyacc driver template is trusted as generator output", "analysed build configuration: linux/amd64", "a caller's io.RuneScanner honours its contract: UnreadRune after a successful ReadRune makes the next ReadRune return that rune again (the lexer ignores UnreadRune's error)"},
 		Rules: []Rule{
 			pf1Rule("no index, slice, type-assertion or division site reachable from ParseCommand(s) or a lexer goroutine can panic", 80,
 				func(c *Ctx) (map[*core.Func]bool, map[*core.Func]bool) { return c.parseScope() }),
 			rulePF2(), rulePF3("parser", "printer", "ast"), rulePF4("parser"), ruleYY1("parser"), ruleLAST1(), ruleCC1("parser"),
 			ruleGR1("parser"), ruleGR3(), rulePU8(), ruleRC2("parser"), ruleRC3(), ruleCC4("parser"), ruleCC6(), ruleGR4(),
-			ruleCC7(), ruleCC8("parser"), ruleNL1(), ruleCC9(),
+			ruleCC7(), ruleCC8("parser"), ruleNL1(), ruleNL2(), ruleCC9(),
 		}})
 
 	add(&Prop{ID: "C19",
@@ -104,7 +104,7 @@ func Props(c *Ctx) map[string]*Prop {
 		Rules: []Rule{ruleEF1(), ruleEF2(), ruleRC2("parser"), ruleCC2("parser"), ruleCC7(), ruleCC8("parser")}})
 	add(&Prop{ID: "C03",
 		Explanation: "Decides only that every syntax error value is located: built with the caller's name and a recorded, non-zero position expression, that Lex records the position of every token it delivers, and that the lexer's error function discards a reported syntax error only when another error is already recorded (ER1). Rejection of ill-formed programs itself (language recognition) is not decidable structurally.",
-		Rules: []Rule{ruleEF6(), ruleER1(), ruleLX("HD5"), ruleTK("TK1", "TK2")}})
+		Rules: []Rule{ruleEF6(), ruleER1(), ruleHD7(), ruleLX("HD5"), ruleTK("TK1", "TK2")}})
 	add(&Prop{ID: "C18",
 		Explanation: "Decides purity, determinism and error reporting of the printer structurally: its only AST writes are the hide/undo idiom and every hide is undone by a deferred closure on all paths (PU1); nothing reachable from Fprint is a source of nondeterminism (PU2); all output goes through one buffered writer whose sticky error is returned through print, Config.Fprint and Fprint (EF5); here-document frames are balanced (PU8); the positions it consults are counted in characters (BR1, TB5) and nothing reachable from Fprint can panic (PF1). That the output is a fix-point of print∘parse is a value-level property and is not decided.",
 		Assumptions: []string{"bufio.Writer's sticky-error contract"},
@@ -141,7 +141,7 @@ func Props(c *Ctx) map[string]*Prop {
 		Rules: []Rule{ruleRC4(), ruleEF1(), ruleCC2("parser"), ruleHD(), ruleLX("HD1b"), ruleTK("SRC1")}})
 	add(&Prop{ID: "C08",
 		Explanation: "Decides the structure of here-document handling: announce/push/pop protocol and FIFO order (CC6), no look-ahead needed to push (GR4 with GR1), operator-dependent delimiter search, literal body iff the delimiter of that very here-document was quoted, delimiter only at column 1 (HD), every state that emits a redirection operator counts an announced here-document (HD6), no panic in the body reader (PF1). Byte-exact bodies and delimiter matching after quote removal are value-level and not decided.",
-		Rules: []Rule{ruleCC6(), ruleGR1("parser"), ruleGR4(), ruleHD(), ruleHD6(), ruleLX("HD1b", "HD5"),
+		Rules: []Rule{ruleCC6(), ruleGR1("parser"), ruleGR4(), ruleHD(), ruleHD6(), ruleHD7(), ruleLX("HD1b", "HD5"),
 			pf1Rule("no index/slice/assertion in the here-document reader can panic", 5,
 				func(c *Ctx) (map[*core.Func]bool, map[*core.Func]bool) {
 					s := map[*core.Func]bool{}
@@ -171,6 +171,6 @@ func Props(c *Ctx) map[string]*Prop {
 		Rules: []Rule{ruleQU(), ruleTB7(), ruleTB4(), ruleSP(), rulePF2(), ruleNG1("pattern")}})
 	add(&Prop{ID: "C17",
 		Explanation: "Decides termination and position side conditions of alias substitution: an alias is pushed only after a membership test on the active stack (RC3), only a single unquoted literal can be substituted, assignments are recognised first, and substitution happens only at command-name / alias-continuation positions (AL1); the 'ends in a blank' test uses the scanner's blank set (TB11 in TB7); alias-driven loops are the only non-read-driven cycles (RC2); the nested lexer of a command substitution shares the alias stack, so an alias value containing `$(` is lexed as text of the alias (NL1). Equality with textual replacement is language-level and not decided.",
-		Rules: []Rule{ruleRC3(), ruleTB7(), ruleRC2("parser"), ruleLX("AL2", "AL3"), ruleNL1()}})
+		Rules: []Rule{ruleRC3(), ruleTB7(), ruleRC2("parser"), ruleLX("AL2", "AL3"), ruleNL1(), ruleNL2()}})
 	return m
 }
